@@ -65,6 +65,8 @@ func runC10(c *an.Ctx) {
 	c.Min("R10.11", 20)
 	r165held(c, "R10.13") // a removal is never judged a duplicate: a single-item subscription ends when its item goes (shared with R16.5)
 	c.Min("R10.13", 2)
+	shareAs(c, "R01.7", "R10.14", r017, func(k string) bool { return strings.Contains(k, "PullID") || strings.Contains(k, "Pull") }) // a single-item subscription watches the id the collection stores (shared with R01.7)
+	c.Min("R10.14", 1)
 	r1012(c, "R10.12")
 	c.Min("R10.12", 30)
 }
